@@ -19,10 +19,13 @@ const void* yk_event_ptr(std::uint32_t i);
 std::uint64_t yk_event_tag(std::uint32_t i);
 void yk_event_reset(void);
 std::int64_t yk_live_allocs(void);              // live blocks obtained through operator new (any variant)
-int yk_is_live(const void* p);                  // p is a block obtained through operator new and not yet deleted
+int yk_is_live(const void* p);
+void yk_stop(void);                            // end of the explored run (CBMC: assume(false); native: exit(0))                  // p is a block obtained through operator new and not yet deleted
 void yk_assert_at(bool c, std::uint32_t line);   // ll2c turns this into __CPROVER_assert(c, "yk:<line>")
 void yk_reach_at(std::uint32_t line);            // ... into __CPROVER_assert(0, "reach:<line>"): the vacuity witness, MUST fail
 }
 #define YK_ASSERT(c) yk_assert_at((c), __LINE__)
 #define YK_REACH() yk_reach_at(__LINE__)
+// a witness that belongs only to the harnesses that declare tag `t` (shared callbacks): ignored elsewhere
+#define YK_REACH_TAG(t) yk_reach_at(__LINE__ + 100000u * (t))
 #define YK_HARNESS extern "C" __attribute__((noinline, used)) void
